@@ -268,6 +268,10 @@ def suite_mr(tier: str, seed: int, mult: int, focus: str = "C05") -> SuiteResult
             if f0 is not None:
                 res.failures.append(f0)
             res.evaluations += cnt.get("hash_seed_runs", 0)
+            f1 = worker_count_stream(rng, work, tier, cnt) if f0 is None else None
+            if f1 is not None:
+                res.failures.append(f1)
+            res.evaluations += cnt.get("worker_count_runs", 0)
         n_cases = (40 if tier == "quick" else 500) * mult
         for k in range(n_cases):
             if res.failures:
@@ -412,6 +416,43 @@ def suite_mr(tier: str, seed: int, mult: int, focus: str = "C05") -> SuiteResult
         shutil.rmtree(work, ignore_errors=True)
     res.counters = cnt
     return res
+
+
+def worker_count_stream(rng: random.Random, work: Path, tier: str, cnt: dict):
+    """More midsection batches than worker processes (7 intermediate files, bin size 3 -> 3 batches), the split step on,
+    real pools: serial, fork and forkserver with 2 processes (3 batches are not a multiple of 2), 3 processes.  All must
+    finish and give the same final files."""
+    import multiprocessing as mp
+    F = 64
+    protos = [[1 if rng.random() < 0.4 else 0 for _ in range(F)] for _ in range(4)]
+    files = [[[b ^ (1 if rng.random() < 0.06 else 0) for b in rng.choice(protos)] for _ in range(rng.randint(14, 22))] for _ in range(7)]
+    case = {"dup": None, "F": F, "files": files, "packed": True, "bf": 50, "thr": 0.6, "chg": 0.0, "tol": 0.05,
+            "init": "diameter", "mid": "diameter", "final": None, "mode": "none", "split": True, "bin": 3, "mids": 1,
+            "cent": True, "cleanup": True}
+    d = work / "wc-in"
+    d.mkdir()
+    inputs = write_inputs(case, d)
+    runs = [("serial", None, 1), ("fork, 2 processes", "fork", 2), ("forkserver, 2 processes", "forkserver", 2)]
+    if tier != "quick":
+        runs += [("fork, 3 processes", "fork", 3), ("forkserver, 4 processes", "forkserver", 4)]
+    ref, fail = None, None
+    cnt["worker_count_runs"] = 0
+    for tag, method, procs in runs:
+        o = work / ("wc-" + tag.replace(", ", "-").replace(" ", "-"))
+        o.mkdir()
+        a = run_impl(case, inputs, o, ctx=mp.get_context(method) if method else None, procs=procs)
+        cnt["worker_count_runs"] += 1
+        got = (a, finals(o))
+        if ref is None:
+            ref = got
+        elif got != ref:
+            fail = {"signature": "C06:result-depends-on-the-number-or-kind-of-worker-processes",
+                    "what": f"execution '{tag}' ({got[0]}) differs from the serial execution ({ref[0]})",
+                    "case": {"files": "7 files of 14-22 rows, 64 bits, bin size 3, one midsection round, split on", "execution": tag}}
+            break
+    for q in work.glob("wc-*"):
+        shutil.rmtree(q, ignore_errors=True)
+    return fail
 
 
 def hash_seed_stream(rng: random.Random, work: Path, tier: str, cnt: dict):
